@@ -19,7 +19,8 @@ PROPERTY = {
     "technique": "bounded stand-in: run-time check of the real DSEPathConstraint engine on the real jitter (extensions compiled from the "
                  "tree) over a seeded family of x86-32 programs and inputs; every produced solution is replayed on a fresh jitter",
     "explanation": "For every generated program (props/jitrun.py: blocks of ALU / memory / stack instructions ending with conditional "
-                   "branches on register comparisons, bounded by a fuel counter) and initial input: the registers EAX EBX ECX EDX "
+                   "branches on register comparisons, bounded by a fuel counter; in 60 % of the programs a first branch depends on a table "
+                   "entry loaded through an input-dependent index, so its constraint reads memory at a symbolic address) and initial input: the registers EAX EBX ECX EDX "
                    "ESI and 8 bytes of the data page are symbolized, the path-coverage strategy is used. (1) The run raises no "
                    "DriftException (the engine's own check of the concrete parts of its state against the jitter, before every "
                    "instruction) and no other exception; (2) at the end, every general register's symbolic value, with the "
@@ -62,6 +63,16 @@ class DseCases(BoundedContract):
         text = jitrun.gen_body(rng, nblocks=rng.randint(2, 5))
         st = jitrun.init_state(rng)
         st["fuel"] = rng.randint(3, 8)
+        if rng.random() < 0.6:
+            # a table lookup with an input-dependent index decides a branch: the constraint reads memory at a symbolic address
+            # (the table is concrete data; the compared constant is one of its entries, or the last entry with one byte changed)
+            tab = jitrun.DATA + 0x120
+            entries = [int.from_bytes(st["data"][0x20 + 4 * k:0x24 + 4 * k], "little") for k in range(4)]
+            k = rng.randrange(4)
+            cst = entries[k] if rng.random() < 0.6 else entries[3] ^ (rng.choice((0x01, 0x80, 0xFF)) << (8 * rng.randrange(4)))
+            lookup = ("    MOV ECX, EAX\n    AND ECX, 0x3\n    MOV EDX, DWORD PTR [0x%x + ECX * 0x4]\n    CMP EDX, 0x%x\n    JZ b%d\n" % (
+                tab, cst, rng.randrange(2)))
+            text = text.replace("b0:\n", lookup + "b0:\n", 1)
         return rng, text, st
 
     def show(self, case):
@@ -114,8 +125,15 @@ class DseCases(BoundedContract):
         if res is not False or r.hits != [jitrun.END]:
             return (False, "harness: the DSE run does not reach the return address (result %r, %d steps)" % (res, steps[0]), True)
         # (2) symbolic state on the concrete input
+        def load(e):
+            # a read the engine left symbolic (input-dependent address): the table it reads is never written by the program
+            if e.is_mem() and e.ptr.is_int() and jitrun.DATA + 0x120 <= int(e.ptr) < jitrun.DATA + 0x130:
+                return ExprInt(int.from_bytes(j.vm.get_mem(int(e.ptr), e.size // 8), "little"), e.size)
+            return e
+
         for name in ["EAX", "EBX", "ECX", "EDX", "ESI", "EDI", "EBP"]:
             v = expr_simp(dse.eval_expr(getattr(regs, name)).replace_expr(concrete))
+            v = expr_simp(expr_simp(v.visit(load)))
             if not v.is_int() or int(v) != getattr(j.cpu, name):
                 return (False, "at the end %s is %s symbolically, which gives %s on the concrete input; the jitter has %#x" % (
                     name, str(dse.eval_expr(getattr(regs, name)))[:200], v if not v.is_int() else hex(int(v)), getattr(j.cpu, name)), True)
